@@ -40,6 +40,13 @@ CLASSES = {
     "ast.Constant": {"value": "str", "lineno": "int", "col_offset": "int", "end_lineno": "int", "end_col_offset": "int"},
     "ast.Starred": {"lineno": "int", "col_offset": "int", "end_lineno": "int", "end_col_offset": "int"},
     "ast.withitem": {"context_expr": "obj:PosNode"},
+    # a call `a.b(x)` as the help builder makes and re-reads it (function = dotted name of two parts, one positional argument)
+    "ast.Name": {"id": "str", "ctx": "const:Load", "lineno": "int", "col_offset": "int", "end_lineno": "int", "end_col_offset": "int"},
+    "ast.Attribute#dotted": {"value": "obj:ast.Name", "attr": "str", "ctx": "const:Load", "lineno": "int", "col_offset": "int", "end_lineno": "int", "end_col_offset": "int"},
+    "ast.Attribute#of": {"value": "obj:AnyNode", "attr": "str", "ctx": "const:Load", "lineno": "int", "col_offset": "int", "end_lineno": "int", "end_col_offset": "int"},
+    "ast.Call#help": {"func": "obj:ast.Attribute#dotted", "args": "list1[union[obj:AnyNode|obj:ast.Attribute#of]]", "keywords": "list0", "starargs": "none", "kwargs": "none",
+                      "lineno": "int", "col_offset": "int", "end_lineno": "int", "end_col_offset": "int"},
+    "AnyNode": {},
     "ast.Tuple": {"elts": "const:opaque-list", "lineno": "int", "col_offset": "int", "end_lineno": "int", "end_col_offset": "int"},
     "SyntaxError": {"msg": "str", "filename": "str", "lineno": "int", "offset": "int", "text": "str", "end_lineno": "int", "end_offset": "int",
                     "bare": "bool", "nargs": "int"},
@@ -221,7 +228,7 @@ def _tree_match(node, val, holes):
     if isinstance(node, _ast.Name) and len(node.id) >= 2 and node.id[0] in "HS" and node.id[1:].isdigit():
         h = holes[int(node.id[1:])]
         if node.id[0] == "H":
-            return z3.BoolVal(same_obj(val, h)) if isinstance(h, PyObj) or isinstance(val, PyObj) else eq(val, h)
+            return eq(val, h)
         return z3.And(z3.BoolVal(isinstance(val, PyObj) and val.cls == "ast.Constant"), eq(val.fields.get("value"), h)) \
             if isinstance(val, PyObj) and "value" in val.fields else z3.BoolVal(False)
     if not (isinstance(val, PyObj) and val.cls == "ast." + type(node).__name__):
@@ -240,7 +247,7 @@ def _tree_match(node, val, holes):
               and want[0].value.id[0] == "A" and want[0].value.id[1:].isdigit()):
             # `*A<k>`: the whole list IS the k-th hole (a sequence of unknown length)
             h = holes[int(want[0].value.id[1:])]
-            conj.append(eq(got, h) if z3.is_expr(got) and z3.is_expr(h) else z3.BoolVal(same_obj(got, h)))
+            conj.append(eq(got, h) if (z3.is_expr(got) and z3.is_expr(h)) or (isinstance(got, PyObj) and isinstance(h, PyObj)) else z3.BoolVal(got is h))
         elif isinstance(want, list):
             items = got.items if isinstance(got, (PyList, PyTuple)) else ([] if got is NONE else None)
             if items is None or len(items) != len(want):
@@ -271,20 +278,27 @@ def sf_all_located(ex, st, result, lineno, col, end_lineno, end_col, *holes):
     conj = []
     seen = set()
 
-    def walk(v):
+    def walk(v, guard):
+        """guard: z3 Bool -- no node on the way down to v is one of the hole objects"""
         if isinstance(v, PyObj):
-            if any(same_obj(v, h) for h in holes) or id(v) in seen:
+            if id(v) in seen:
                 return
             seen.add(id(v))
+            same = [same_obj(v, h) for h in holes if isinstance(h, PyObj)]
+            if any(x is True for x in same):
+                return
+            undecided = [eq(v, h) for h, x in zip([h for h in holes if isinstance(h, PyObj)], same) if x is None]
+            if undecided:
+                guard = z3.And(guard, z3.Not(z3.Or(undecided)))
             if v.cls.startswith("ast.") and v.cls not in ("ast.Add", "ast.Load", "ast.Store", "ast.Del", "ast.withitem", "ast.arguments", "ast.comprehension"):
                 for f, w in (("lineno", lineno), ("col_offset", col), ("end_lineno", end_lineno), ("end_col_offset", end_col)):
-                    conj.append(eq(v.fields[f], w) if f in v.fields else z3.BoolVal(False))
+                    conj.append(z3.Implies(guard, eq(v.fields[f], w) if f in v.fields else z3.BoolVal(False)))
             for x in v.fields.values():
-                walk(x)
+                walk(x, guard)
         elif isinstance(v, (PyList, PyTuple)):
             for x in v.items:
-                walk(x)
-    walk(result)
+                walk(x, guard)
+    walk(result, z3.BoolVal(True))
     return z3.And(conj) if conj else z3.BoolVal(True)
 
 
@@ -454,16 +468,23 @@ def sf_wf_error(ex, st, e, parser):
                   z3.Or(f["end_lineno"] > f["lineno"], z3.And(f["end_lineno"] == f["lineno"], f["end_offset"] >= f["offset"])))
 
 
+def _pos_field(n, f):
+    from engine.pyvc import Unsupported
+    if not (isinstance(n, PyObj) and f in n.fields):
+        raise Unsupported(f"{n!r} has no position attribute `{f}`")
+    return n.fields[f]
+
+
 def sf_node_start(ex, st, n):
     if is_tok(n):
         return PyTuple([Tok.sl(n), Tok.sc(n)])
-    return PyTuple([n.fields["lineno"], n.fields["col_offset"]])
+    return PyTuple([_pos_field(n, "lineno"), _pos_field(n, "col_offset")])
 
 
 def sf_node_end(ex, st, n):
     if is_tok(n):
         return PyTuple([Tok.el(n), Tok.ec(n)])
-    return PyTuple([n.fields["end_lineno"], n.fields["end_col_offset"]])
+    return PyTuple([_pos_field(n, "end_lineno"), _pos_field(n, "end_col_offset")])
 
 
 SPEC_FUNCS = {"lines_ok": sf_lines_ok, "node_start": sf_node_start, "node_end": sf_node_end, "node_wf": sf_node_wf, "wf_error": sf_wf_error, "tok_wf": sf_tok_wf, "toks_wf": sf_toks_wf, "lines_left": sf_lines_left, "indent_col": sf_indent_col, "indents_wf": sf_indents_wf, "is_blank_char": sf_is_blank_char, "last": sf_last, "lr_cache_ok": sf_lr_cache_ok, "cache_ok": sf_cache_ok, "cache_has": sf_cache_has, "cache_end": sf_cache_end, "cache_tree": sf_cache_tree, "em_cached": sf_em_cached, "tk_ok": sf_tk_ok, "can_peek": sf_can_peek, "layout": sf_layout, "cache_wf": sf_cache_wf, "truthy": sf_truthy, "is_none": sf_is_none, "pos_le": sf_pos_le,
